@@ -23,6 +23,14 @@ def observe(q, case):
         try:
             objs, meas = exprgen.build_impl(q, case)
             r = objs[case["root"]]
+            if case.get("fault"):
+                # a failing computation earlier in the session (division by a quantity whose central
+                # value is exactly 0) must not influence later answers
+                try:
+                    z = q.Measurement(0.0, 0.1)
+                    ((meas[0] + 1) / z).derivative(meas[0])
+                except Exception:  # noqa: BLE001
+                    pass
             # what the library holds for each measurement (repeated measurements: mean and the
             # selected statistic) is what the formula law is about
             out["vals"] = [bits(float(m.value)) for m in meas]
